@@ -403,6 +403,13 @@ Definition S_get_queue_total : Prop :=
     get_queue true qlen tasks = Ok (map fst (filter (fun t => negb (snd t =? 2)%N) tasks)).
 
 (** the pinned commit panics as soon as the task table holds a finished task *)
+(** ... so every task that is not fetched is in the saved queue, whatever its state: waiting
+    (0), being fetched (1), or failed (3, a fetch that yielded nothing and is retried with the
+    next request): a store reloaded from the snapshot resumes all of them *)
+Definition S_get_queue_keeps_unfinished : Prop :=
+  forall qlen tasks h st, In (h, st) tasks -> st <> 2%N ->
+    exists q, get_queue true qlen tasks = Ok q /\ In h q.
+
 Definition S_get_queue_refuted : Prop :=
   exists qlen tasks, (qlen <= length tasks)%nat /\ get_queue false qlen tasks = Panic PIndexRange.
 
